@@ -110,8 +110,9 @@ def end_to_end(ctx, rng, exports, forms, records, n):
     wd = Workdir()
     done = 0
     try:
-        for system in [str(x) for x in rng.permutation(fillspec.SYSTEMS)][:n]:
-            ds = system_dataset(rng, exports, system, lattice=bool(rng.random() < 0.5), nq=2, nat=2, settings={"NT": 4, "DT": 400, "NTV": 7})
+        for sn, system in enumerate([str(x) for x in rng.permutation(fillspec.SYSTEMS)][:n]):
+            # (the first run on a volume grid of 33 points, the others of 7: every grid point has its own stiffness and compliance)
+            ds = system_dataset(rng, exports, system, lattice=bool(rng.random() < 0.5), nq=2, nat=2, settings={"NT": 4, "DT": 400, "NTV": 33 if sn == 0 else 7})
             d = wd.sub(f"e2e_{system}")
             try:
                 ds.fit_pressure_window(d)
@@ -127,6 +128,21 @@ def end_to_end(ctx, rng, exports, forms, records, n):
                 C[:, :, i - 1, j - 1] = C[:, :, j - 1, i - 1] = numpy.asarray(calc.modulus_adiabatic[k]) * G
             if not numpy.all(numpy.isfinite(C)):
                 continue
+            # the reported constants under their four-index names (c1122 is c12, s2323 is s44): the same arrays as under the Voigt names
+            named_bad = None
+            for k in calc.modulus_keys:
+                std = "%d%d%d%d" % tuple(k.standard)
+                for pre, two in (("c", "c%d%d" % tuple(k.voigt)), ("s", "s%d%d" % tuple(k.voigt))):
+                    try:
+                        a4, a2 = numpy.asarray(getattr(vb, pre + std)), numpy.asarray(getattr(vb, two))
+                    except AttributeError:
+                        continue
+                    if a4.shape != a2.shape or not numpy.allclose(a4, a2, rtol=1e-12, atol=0, equal_nan=True):
+                        named_bad = (pre + std, two)
+            if named_bad:
+                ctx.count({"system": system, "path": "calculator", "clause": "four_index_names"})
+                ctx.violation(f"{system}: the attribute {named_bad[0]} of the volume base is not the reported {named_bad[1]}",
+                              {"system": system, "names": list(named_bad)}, {"system": system, "path": "calculator", "clause": "four_index_name"})
             pd = numpy.all(numpy.linalg.eigvalsh(C) > 1e-6, axis=-1)
             case = {"system": system, "path": "calculator", "keys": ["%d%d" % k for k in keys], "mass": float(calc.elast_data.cellmass)}
             ctx.count(case)
